@@ -28,7 +28,7 @@ ANCHORS = ['classes:PaneBase.__init_subclass__', 'classes:PaneBase.__class_getit
            'classes:PaneOptions.replace']
 MIN_COUNTERS = {'quick': {'hierarchies': 2500, 'signature_checks': 2500, 'stdlib_mirror_checks': 2000, 'generic_hierarchies': 1200,
                           'substituted_field_conversions': 8000, 'option_inheritance_checks': 2500, 'redeclared_fields': 800,
-                          'custom_inherited_checks': 300}}
+                          'custom_inherited_checks': 300, 'inner_generic_checks': 2000}}
 
 TVS = {n: t.TypeVar(n) for n in ('T', 'U', 'V', 'W')}
 
@@ -689,3 +689,62 @@ def run(ctx):
             ctx.violation('type-variable-substitution', 'parametrised', i, {'subscript': 'Two[int, str](1, "s")', 'outcome': full.brief()}, mech='right-arity-subscript-refused')
 
     drive.for_each_case(ctx, 'parametrised', 40, body_parametrised_instances, gen=lambda c, r: Ty('int'))
+
+    # type variables INSIDE other subscripted pane dataclasses and struct literals used as field types (`inner: Inner[T]`,
+    # `many: List[Inner[List[T]]]`, `pair: Pair[T, str]`, `lit: {'a': T}`): Outer[A] enforces A in every one of them, through
+    # subscripting, subclassing and re-parametrisation
+    def body_inner_generics(i, rng, ty, T):
+        import types as _types
+        import warnings as _warnings
+        TA, TB = t.TypeVar('TA'), t.TypeVar('TB')
+        n = next(_serial)
+        Inner = _types.new_class(f"GInner{n}", (env.PaneBase, t.Generic[TA]), {}, lambda ns: ns.update({'__annotations__': {'x': TA}, '__module__': __name__}))
+        Pair = _types.new_class(f"GPair{n}", (env.PaneBase, t.Generic[TA, TB]), {}, lambda ns: ns.update({'__annotations__': {'l': TA, 'r': TB}, '__module__': __name__}))
+        placements = {
+            'inner': (Inner[TA], lambda v: {'x': v}),
+            'many': (t.List[Inner[t.List[TA]]], lambda v: [{'x': [v]}, {'x': []}]),
+            'pair': (Pair[TA, str], lambda v: {'l': v, 'r': 's'}),
+            'pair2': (Pair[int, TA], lambda v: {'l': 1, 'r': v}),
+            'lit': ({'a': TA, 'b': int}, lambda v: {'a': v, 'b': 1}),
+            'opt': (t.Optional[Inner[TA]], lambda v: {'x': v}),
+            'dmap': (t.Dict[str, Inner[TA]], lambda v: {'k': {'x': v}}),
+            'deep': (Inner[Inner[TA]], lambda v: {'x': {'x': v}}),
+            'tup': (t.Tuple[Inner[TA], int], lambda v: [{'x': v}, 1]),
+        }
+        names = rng.sample(sorted(placements), rng.choice((2, 3, 4)))
+        ann = {nm: placements[nm][0] for nm in names}
+        with _warnings.catch_warnings():
+            _warnings.simplefilter('ignore')
+            Outer = _types.new_class(f"GOuter{n}", (env.PaneBase, t.Generic[TA]), {}, lambda ns: ns.update({'__annotations__': dict(ann), '__module__': __name__}))
+            arg, good, bad = rng.choice(((int, 5, 's'), (str, 's', 5), (t.List[int], [1], ['a']), (float, 2.5, 'x'), (bool, True, 'yes')))
+            route = rng.choice(('subscript', 'subclass', 'reparam', 'reparam-subclass'))
+            mk = {'subscript': lambda: Outer[arg],
+                  'subclass': lambda: type(f"GSub{n}", (Outer[arg],), {'__annotations__': {}, '__module__': __name__}),
+                  'reparam': lambda: _types.new_class(f"GMid{n}", (Outer[TB], t.Generic[TB]), {}, lambda ns: ns.update({'__annotations__': {}, '__module__': __name__}))[arg],
+                  'reparam-subclass': lambda: type(f"GLeaf{n}", (_types.new_class(f"GMid{n}", (Outer[TB], t.Generic[TB]), {}, lambda ns: ns.update({'__annotations__': {}, '__module__': __name__}))[arg],),
+                                                   {'__annotations__': {}, '__module__': __name__})}[route]
+            built = observe(mk)
+            if built.kind != 'value':
+                ctx.violation('type-variable-substitution', 'inner-generics', i, {'fields': short(ann, 300), 'route': route, 'argument': short(arg, 40), 'class_creation': built.brief()},
+                              mech='inner-generic-class-creation-failed')
+                return
+            C = built.val
+            member = {nm: placements[nm][1](good) for nm in names}
+            o = observe(C.from_data, member)
+            ctx.count('inner_generic_checks')
+            ctx.case(('inner-generics', route, tuple(sorted(names)), o.kind), nontrivial=True)
+            if o.kind != 'value':
+                ctx.violation('conversion-enforces-substituted-types', 'inner-generics', i, {'fields': short(ann, 300), 'route': route, 'argument': short(arg, 40), 'member': short(member, 200),
+                                                                                        'pane': o.brief()}, mech='inner-generic-member-refused')
+                return
+            for nm in names:
+                near = {**member, nm: placements[nm][1](bad)}
+                o = observe(C.from_data, near)
+                ctx.count('inner_generic_checks')
+                if o.kind != 'converr':
+                    ctx.violation('conversion-enforces-substituted-types', 'inner-generics', i,
+                                  {'fields': short(ann, 300), 'route': route, 'argument': short(arg, 40), 'field': nm, 'non_member': short(near, 200), 'pane': o.brief()},
+                                  mech=f"inner-generic-variable-not-substituted:{'struct-literal' if nm == 'lit' else 'pane-class'}")
+                    return
+
+    drive.for_each_case(ctx, 'inner-generics', 60, body_inner_generics, gen=lambda c, r: Ty('int'))
